@@ -138,6 +138,9 @@ pub fn scenario(g: &mut G, ctx: &RunCtx) -> RunReport {
     if g.chance(1, 12) {
         return bigchunk_scenario(g, ctx);
     }
+    if g.chance(1, 14) {
+        return trailer_cut_scenario(g, ctx);
+    }
     let ran = bodyx::run(&d.plan, ctx, false);
     let mut stats = Stats::default();
     stats.absorb(&ran.history);
@@ -172,12 +175,26 @@ fn coded_scenario(g: &mut G, ctx: &RunCtx) -> RunReport {
         let mut e = flate2::write::GzEncoder::new(Vec::new(), level);
         e.write_all(&payload).unwrap();
         (*g.pick(&["gzip", "GZIP", "x-other, gzip"]), e.finish().unwrap())
+    } else if len % 3 == 1 {
+        // (no draw) `deflate` in the zlib wrapping (what RFC 9110 means by it; this client reads the raw
+        // format and refuses the wrapping - either way nothing but a prefix of the payload comes out and an
+        // incomplete frame is never a complete body)
+        g.probe("coded-body:zlib-wrapped-deflate");
+        let mut e = flate2::write::ZlibEncoder::new(Vec::new(), level);
+        e.write_all(&payload).unwrap();
+        (*g.pick(&["deflate", "Deflate"]), e.finish().unwrap())
     } else {
         let mut e = flate2::write::DeflateEncoder::new(Vec::new(), level);
         e.write_all(&payload).unwrap();
         (*g.pick(&["deflate", "Deflate"]), e.finish().unwrap())
     };
-    let mut plan = bodyx::plan_from_payload(g, z.clone(), vec![("Content-Encoding".to_string(), label.as_bytes().to_vec())]);
+    // (no draw) octets after the end of the coded stream, inside the same frame
+    let mut framed = z.clone();
+    if len % 2 == 0 {
+        framed.extend(std::iter::repeat(b'.').take(1 + len % 37));
+        g.probe("coded-body:octets-after-the-stream-inside-the-frame");
+    }
+    let mut plan = bodyx::plan_from_payload(g, framed, vec![("Content-Encoding".to_string(), label.as_bytes().to_vec())]);
     plan.read_mode = match g.below(5) {
         0 => ReadMode::Bytes,
         1 => ReadMode::WriteTo,
@@ -293,6 +310,105 @@ fn coded_oracle(d: &Damaged, o: &Observed, payload: &[u8], z: &[u8], coding: &st
                 Ok(_) => Verdict::Pass,
             }
         }
+    }
+}
+
+/// A chunked body with a trailer section (field lines after the last chunk, RFC 9112 7.1.2), cut or reset
+/// *inside* that section.  Whether or not a client knows trailers, this frame never completed: a client that
+/// does not know them refuses the first trailer line, one that does is still owed the closing empty line.
+/// So: never a clean end, nothing but a prefix of the payload.
+fn trailer_cut_scenario(g: &mut G, ctx: &RunCtx) -> RunReport {
+    g.probe("cut-inside-a-trailer-section");
+    let len = g.size(20_000);
+    let payload = g.payload(len);
+    let (chunks, styles) = bodyx::gen_chunks(g, len);
+    let announce = g.chance(1, 2);
+    let mut headers = vec![("Transfer-Encoding".to_string(), b"chunked".to_vec())];
+    if announce {
+        headers.insert(0, ("Trailer".to_string(), b"X-Checksum, X-Note".to_vec()));
+    }
+    let mut wire = httpref::Wire::default();
+    wire.bytes = httpref::encode_head(200, "OK", &headers);
+    wire.head_len = wire.bytes.len();
+    httpref::encode_body(&mut wire, Framing::Chunked, &payload, &chunks, b"0", &[]);
+    // replace the closing empty line by a trailer section: 1..4 field lines and then the empty line
+    let closing = wire.bytes.len() - 2;
+    wire.bytes.truncate(closing);
+    let trailer_start = wire.bytes.len();
+    for i in 0..g.range(1, 4) {
+        let line: &[u8] = match (i + g.below(3)) % 3 {
+            0 => b"X-Checksum: 9a0364b9e99bb480dd25e1f0284c8555\r\n",
+            1 => b"X-Note:\r\n",
+            _ => b"x-long: aaaaaaaaaaaaaaaaaaaaaaaaaaaaaaaaaaaaaaaaaaaaaaaaaaaaaaaaaaaaaaaaaaaaaaaaaaaaaaaaaaaaaaaaaaaaaaaaaaaaaaaaaaaaaaaaaaaaaaaaaaaaaaaaaaaaaaaa\r\n",
+        };
+        wire.bytes.extend_from_slice(line);
+    }
+    wire.bytes.extend_from_slice(b"\r\n");
+    wire.frame_end = wire.bytes.len();
+    // cut somewhere from the first trailer octet up to (not including) the last octet of the closing line
+    let k = trailer_start + g.usize_below(wire.bytes.len() - 1 - trailer_start + 1).min(wire.bytes.len() - 1 - trailer_start);
+    let mut plan = bodyx::plan_from_payload(g, payload.clone(), vec![]);
+    plan.framing = Framing::Chunked;
+    plan.chunk_lens = chunks.iter().map(|c| c.len).collect();
+    plan.chunk_style = styles;
+    plan.extra_headers = headers;
+    plan.declared_len = len;
+    let rst = g.chance(1, 3);
+    let (segs, name) = gen::segmentation(g, k, &wire.targets.clone());
+    plan.end = if rst { End::Rst } else { End::Fin };
+    plan.script = Script::from_wire(&wire.bytes[..k], &segs, plan.end);
+    plan.seg_name = name;
+    plan.nsegs = segs.len();
+    plan.cut_at = Some(k);
+    plan.damage = format!("{}:at={}:inside-the-trailer-section", if rst { "CutRst" } else { "CutFin" }, k);
+    plan.read_mode = match g.below(5) {
+        0 => ReadMode::Bytes,
+        1 => ReadMode::WriteTo,
+        2 => ReadMode::TextUtf8,
+        _ => {
+            let (v, n) = gen::read_sizes(g);
+            ReadMode::Sizes(v, n)
+        }
+    };
+    plan.rereads = g.below(4) as usize;
+    plan.wire = wire;
+    let ran = bodyx::run(&plan, ctx, false);
+    let mut stats = Stats::default();
+    stats.absorb(&ran.history);
+    let verdict = match &ran.observed {
+        None => violation("hang", format!("run torn down: deadlock={} event_cap={}", ran.history.deadlock, ran.history.event_cap)),
+        Some(Err(p)) => violation(format!("panic:{}", panic_site(p)), p.clone()),
+        Some(Ok(o)) => {
+            let mut v = Verdict::Pass;
+            if o.send_err.is_none() {
+                if !is_prefix(&o.output, &payload) && o.text.is_none() {
+                    v = violation("prefix-violated:Chunked:trailer-section-cut", "bytes handed out are not a prefix of the payload".to_string());
+                }
+                for (i, c) in o.calls.iter().enumerate() {
+                    let clean_end = match (&c.res, c.what) {
+                        (Ok(0), "read") => c.size > 0,
+                        (Ok(_), "read") => false,
+                        (Ok(_), _) => true,
+                        _ => false,
+                    };
+                    if clean_end && v == Verdict::Pass {
+                        v = violation(
+                            "incomplete-reported-complete:Chunked:trailer-section-cut",
+                            format!("call {} ({}) reported a clean end of the body although the connection was cut inside the trailer section (offset {} of {})", i, c.what, k, plan.wire.bytes.len()),
+                        );
+                    }
+                }
+            }
+            v
+        }
+    };
+    RunReport {
+        verdict,
+        shape: format!("trailer-cut/{}/announce={}", plan.shape(), announce),
+        nontrivial: true,
+        stats,
+        sched_tape: ran.sched_tape,
+        describe: if ctx.describe { format!("cut inside a trailer section; {}", plan.describe()) } else { String::new() },
     }
 }
 
